@@ -194,6 +194,14 @@ func genEvidenceWorld(rng *core.Rng, i int) world.WorldSpec {
 		}
 		s.AA = &world.AASpec{Kind: "ec", CurveID: chip.AllParamIDs[(i/4)%11], Explicit: rng.Bool(), DER: rng.Chance(1, 4)}
 	}
+	if (i%4 == 0 || i%4 == 1) && rng.Chance(1, 3) {
+		// a second mechanism next to PACE-CAM / CA: the reader runs Active Authentication as well
+		if rng.Bool() {
+			s.AA = &world.AASpec{Kind: "rsa", Bits: core.Pick(rng, []int{1024, 1536, 2048}), Hash: core.Pick(rng, []string{"SHA1", "SHA256", "SHA512"}), M1: "random"}
+		} else {
+			s.AA = &world.AASpec{Kind: "ec", CurveID: core.Pick(rng, chip.AllParamIDs), Explicit: rng.Bool()}
+		}
+	}
 	// clearing the CAM flag may have produced duplicate PACE infos
 	var uniq []world.PaceSpec
 	for _, p := range s.PACE {
@@ -226,6 +234,21 @@ func (StoreVerifyEngine) Gen(prop, tier string, seed uint64, yield func(c any) b
 		n /= 4 // secondary role (offline path for C01, crash monitors for C12)
 	}
 	rng := core.NewRng(core.SubSeed(seed, "store-verify", tier))
+	if prop == "C07" {
+		// offline nonce binding: Active Authentication worlds only, the caller always supplies the challenge
+		n = 64
+		if tier == "thorough" {
+			n = 8000
+		}
+		for i := 0; i < n; i++ {
+			s := genEvidenceWorld(rng, 4*(i/2)+2+i%2)
+			s.AAChallenge = true
+			if !yield(StoreVerifyCase{Spec: s}) {
+				return
+			}
+		}
+		return
+	}
 	for i := 0; i < n; i++ {
 		if !yield(StoreVerifyCase{Spec: genEvidenceWorld(rng, i)}) {
 			return
@@ -485,6 +508,15 @@ func (StoreVerifyEngine) Run(prop string, ci any) *core.Outcome {
 			tamper{"aa.algorithm:empty", "AA", func(e *store.Evidence) { e.AA.Algorithm = nil }, false},
 			tamper{"aa.signature:oversized-4097", "AA", func(e *store.Evidence) { e.AA.Signature = bytes.Repeat([]byte{0x55}, 4097) }, false},
 			tamper{"aa:dropped", "AA", func(e *store.Evidence) { e.AA = nil }, false})
+		if k := r.W.AAKey; k != nil && k.N != nil {
+			// signatures a key holder can produce whose recoverable message is short / oddly framed
+			for a := 0; a < 8; a++ {
+				for b := 0; b < 8; b++ {
+					a2, b2 := a+8*((a+b)%3), b
+					ts = append(ts, tamper{fmt.Sprintf("aa.signature:crafted-f-%d-%d", a2, b2), "AA", func(e *store.Evidence) { e.AA.Signature = CraftRSAF(k, a2, b2) }, false})
+				}
+			}
+		}
 	}
 	for _, t := range ts {
 		e2 := cloneEvidence(ev)
@@ -510,6 +542,52 @@ func (StoreVerifyEngine) Run(prop string, ci any) *core.Outcome {
 		}
 		if bad {
 			out.Violate("C14", "tampered-evidence-accepted", t.name, "evidence field rewritten (%s) in the store, envelope checksums recomputed, and the %s verdict is still successful", t.name, t.mech)
+		}
+	}
+	// offline nonce binding (C07): with a caller-supplied challenge, verification hard-fails whenever the recorded nonce
+	// differs from it - whether or not the rest of the evidence still verifies
+	if ev.AA != nil && live.AA && len(ev.AA.Nonce) == 8 {
+		orig := bytes.Clone(ev.AA.Nonce)
+		if d, e, _ := verifyBlob(out, r.W, store.EncodeVerifiable(files, ev), orig, "aa genuine, own challenge"); e != nil || d == nil || !verdictsOf(d).AA {
+			out.Violate("C07", "offline-own-challenge-rejected", aaKey(c.Spec), "genuine AA evidence verified offline with the very challenge that was sent is not accepted: %v", e)
+		}
+		type nb struct {
+			name  string
+			nonce []byte // recorded nonce after the rewrite
+			chal  []byte // challenge supplied to the verifier
+			sig   bool   // signature broken as well
+		}
+		other := flipLast(orig)
+		cases := []nb{
+			{"other-challenge", orig, other, false},
+			{"other-challenge-first-bit", orig, flipFirst(orig), false},
+			{"nonce-rewritten-flip-first", flipFirst(orig), orig, false},
+			{"nonce-rewritten-flip-last", flipLast(orig), orig, false},
+			{"nonce-rewritten-zero", make([]byte, 8), orig, false},
+			{"nonce-truncated-7", orig[:7], orig, false},
+			{"nonce-extended-9", append(bytes.Clone(orig), 0), orig, false},
+			{"nonce-empty", nil, orig, false},
+			{"nonce-rewritten-and-signature-broken", flipMid(orig), orig, true},
+			{"other-challenge-and-signature-broken", orig, other, true},
+		}
+		for _, x := range cases {
+			if bytes.Equal(x.nonce, x.chal) {
+				continue
+			}
+			e2 := cloneEvidence(ev)
+			e2.AA.Nonce = bytes.Clone(x.nonce)
+			if x.sig {
+				e2.AA.Signature = flipMid(e2.AA.Signature)
+			}
+			out.Fault("rewrite_AA_nonce_binding")
+			d, e, pan := verifyBlob(out, r.W, store.EncodeVerifiable(files, e2), x.chal, "aa nonce binding "+x.name)
+			if pan {
+				out.Violate("C07", "panic", "offline/"+x.name, "verifier.Verify panicked (%s)", x.name)
+				continue
+			}
+			if e == nil && d != nil {
+				out.Violate("C07", "offline-nonce-mismatch-not-hard-failed", x.name, "recorded nonce %x, supplied challenge %x (%s): Verify returned a result instead of a hard error (AA verdict success=%v, ActiveAuthErr=%v)", x.nonce, x.chal, x.name, verdictsOf(d).AA, d.Session.ActiveAuthErr)
+			}
 		}
 	}
 	// the documented joint replacement of chip agreement key + encrypted chip authentication data
